@@ -214,6 +214,39 @@ var otherScripts = []struct {
 		[]string{"Allin", "Allin", "Allin"}},
 }
 
+// everyOtherState enumerates (breadth first, on the real engine, one representative per distinct
+// state) every decision sequence of configuration c: the other hand of a scene stopped at every
+// decision point it can reach, and at every way it can close.
+func everyOtherState(c *Config) [][]string {
+	type item struct{ dec []string }
+	seen := map[string]bool{}
+	var out [][]string
+	frontier := []item{{nil}}
+	for len(frontier) > 0 && len(out) < 5000 {
+		it := frontier[0]
+		frontier = frontier[1:]
+		sc := &Scene{Kind: "reuse-apply", Other: c, Hist: it.dec}
+		g, err := sc.otherGame()
+		if err != nil {
+			continue
+		}
+		gs := g.GetState()
+		k := string(StateJSON(gs))
+		if seen[k] {
+			continue
+		}
+		seen[k] = true
+		out = append(out, it.dec)
+		if gs.Status.CurrentEvent != "RoundStarted" {
+			continue
+		}
+		for _, op := range Alphabet(c, gs) {
+			frontier = append(frontier, item{append(append([]string{}, it.dec...), op.Label())})
+		}
+	}
+	return out
+}
+
 // SceneGrid: small hands under test, each placed in every scene.
 func SceneGrid(tier string) []*Config {
 	subjects := []*Config{
@@ -227,6 +260,24 @@ func SceneGrid(tier string) []*Config {
 			cfg([]int64{2, 3, 2, 3}, 0, 1, 2, 0, false, 0, "no", "f52", 2, 0, "standard", "classes"))
 	}
 	var out []*Config
+	if tier == "thorough" {
+		// every reachable state of two tiny other hands (heads-up; 3-handed with an ante) as what the
+		// process / the game object has been through, for the two smallest subjects
+		for _, oc := range []*Config{
+			{Bankroll: []int64{4, 5}, SB: 1, BB: 2, Limit: "no", Deck: "f52", Hole: 2, Table: "standard", Amounts: "edges"},
+			{Bankroll: []int64{4, 3, 5}, Ante: 1, SB: 1, BB: 2, Limit: "no", Deck: "f52", Hole: 2, Table: "standard", Amounts: "edges"},
+		} {
+			for _, dec := range everyOtherState(oc) {
+				for _, s := range subjects[:2] {
+					for _, kind := range []string{"beside", "reuse-apply", "reuse-load"} {
+						c := *s
+						c.Scene = &Scene{Kind: kind, Other: oc, Hist: dec}
+						out = append(out, &c)
+					}
+				}
+			}
+		}
+	}
 	for _, s := range subjects {
 		{
 			c := *s
